@@ -110,9 +110,16 @@ class C04(Prop):
             missing += rng.sample(UNKNOWN, 1)
         text = G.gen_program(rng, missing_names=missing)
         mand = ["from __future__ import annotations"] if rng.random() < 0.15 else []
-        return dict(text=text, tool="tidy", params=R.gen_params(rng), known=known, mandatory=mand,
+        case = dict(text=text, tool="tidy", params=R.gen_params(rng), known=known, mandatory=mand,
                     flags=dict(add_missing=True, remove_unused=True, add_mandatory=True),
                     unique={u[1]: u[0] for u in uniq}, ambiguous=[a[1] for a in amb])
+        if rng.random() < 0.12:
+            # remove-unused left to the tool's default: off for __init__.py and files under a .pyflyby directory
+            case["filename"] = rng.choice(["/nonexistent/pkg/__init__.py", "/nonexistent/a/.pyflyby/x.py",
+                                           "/nonexistent/pkg/mod.py", "/nonexistent/pkg/__init__2.py",
+                                           "/nonexistent/x.pyflyby/m.py"])
+            case["flags"]["remove_unused"] = "AUTOMATIC"
+        return case
 
     def run_impl(self, case):
         obs = {}
@@ -177,7 +184,25 @@ class C04(Prop):
             if a not in allowed:
                 fails.append(dict(what="an import was added that is neither the unique candidate of a missing name nor mandatory",
                                   added=list(a), **ctx))
-        # 3. no top-level import whose binding is never read remains (future / star / mandatory exempt)
+        # 3. no top-level import whose binding is never read remains (future / star / mandatory / __init__.py exempt)
+        fn = case.get("filename")
+        if fn and case["flags"].get("remove_unused") == "AUTOMATIC" and (
+                fn.endswith("/__init__.py") or ".pyflyby" in fn.split("/")):
+            # exempt file: nothing may be removed as unused (shadowed duplicates inside one block still collapse,
+            # exactly as reformat-imports collapses them: compare with the reformatted input)
+            try:
+                ref = R.run_tool(dict(case, tool="reformat"))
+                imp_ref = R.top_imports(ref)
+            except Exception:
+                return fails
+            left = canon(imp_out)
+            for i in canon(imp_ref):
+                if i in left:
+                    left.remove(i)
+                else:
+                    fails.append(dict(what="an import was removed from a file exempt from unused-import removal",
+                                      imp=list(i), filename=fn, **ctx))
+            return fails[:3]
         try:
             loaded = _names_loaded(out)
         except SyntaxError:
